@@ -23,7 +23,7 @@ TN == TArg(<<O(".", VStr("n"))>>)
 ExprAlphabet == {
   O(".", VStr("n")), O(".", VStr("l")), O(".", VStr("echo")), O(".", VStr("__class__")), O(".", VStr("_x")),
   O("[", Lit(VInt(0))), O("[", Lit(VInt(-1))), O("[", Lit(VInt(1))), O("[", Lit(VFrac(1, 1))), O("[", Lit(VStr("k"))), O("[", Lit(VStr("it's"))), O("[", Lit(VStr("a.b"))),
-  O("[", Lit(VStr("q\"d"))), O("[", Lit(VNone)), O("[", Lit(VFrac(1, 2))), O("[", TN),
+  O("[", Lit(VStr("q\"d"))), O("[", Lit(VStr("b'\"q"))), O("[", Lit(VStr("s\\'\"t"))), O("[", Lit(VNone)), O("[", Lit(VFrac(1, 2))), O("[", TN),
   O("[", SliceArg(VInt(0), VInt(1), VNone)), O("[", SliceArg(VNone, VNone, VInt(-1))), O("[", SliceArg(VInt(1), VNone, VNone)),
   O("[", SliceArg(VNone, VInt(2), VInt(2))),
   O("[", [a |-> "tuple", items |-> <<>>]), O("[", [a |-> "tuple", items |-> <<Lit(VInt(1))>>]),
